@@ -33,6 +33,17 @@ inline bool call(const Ctx &cx, Circuit &c, const char *obj, const char *stage, 
   vt::emit(b);
   int idx = 0;
   PlacementCallback cb = [&](PlacementStep s) {
+    // no call of a stage makes more than a few hundred callbacks (at most 60 steps): beyond that the trace says so once and stops
+    // logging, so that a call that never ends cannot fill the disk before its time budget expires
+    if (idx >= 1000) {
+      if (idx == 1000) {
+        Value fl = vt::ev("CbFlood");
+        fl.set("run", cx.run).set("obj", obj).set("idx", idx);
+        vt::emit(fl);
+      }
+      ++idx;
+      return;
+    }
     Value e = vt::ev("Cb");
     e.set("run", cx.run).set("obj", obj).set("step", stepName(s)).set("idx", idx++).set("circ", vp::circuitToJson(c));
     e.set("wl", c.hpwl());
